@@ -178,7 +178,7 @@ def run(out):
 
     insts = [('histories-exhaustive', dict(constants={'MaxCalls': 2 if quick else 3, 'Deviations': set()})),
              ('histories-simulated', dict(constants={'MaxCalls': 6 if quick else 10, 'Deviations': set()},
-                                          simulate=12 if quick else 200, depth=40 if quick else 70, seed=out.seed))]
+                                          simulate=3 if quick else 40, depth=40 if quick else 70, seed=out.seed))]
     hists = {}
     for name, kw in insts:
         r = common.run_tlc('Session', timeout=3000, heap='8g', **kw)
@@ -187,13 +187,19 @@ def run(out):
             out.violation('spec-invariant %s violated in the model' % r.violated, {'instance': name, 'tlc': r.error[:3000]})
             continue
         n0 = len(hists)
-        for v in r.vectors():
-            h = tuple((c, ab) for c, ab in v['h'])
+        new_h = set(tuple((c, ab) for c, ab in v['h']) for v in r.vectors())
+        r.tagged.clear()                # the census walks every object of the interpreter: keep the heap small before forking workers
+        if r.mode == 'simulate':
+            new_h = set(common.sample(sorted(new_h), 700 if quick else 30000, out.seed))
+        for h in new_h:
             hists.setdefault(h, None)
+        del new_h
         out.add_tlc(name, r, histories=len(hists) - n0)
         if r.mode == 'bfs':
             out.exhaustive = r.exhaustive
     hl = sorted(hists)
+    del hists
+    gc.collect()
     if not quick and len(hl) > 130000:
         raise common.MachineryError('unexpected number of histories %d' % len(hl))
     kinds = sorted(set(k for h in hl for k in h))
